@@ -419,6 +419,41 @@ func init() {
 				"fs": rgNames(cfg.FilesystemExtractors), "standalone": rgNames(cfg.StandaloneExtractors)})
 		}
 
+		// ---- several detectors configured together, nothing else enabled: one call has to enable every required extractor.
+		// The sets: all detectors in registry order and in reverse, and every capability tuple's filtered detectors.
+		var detSetAll []detector.Detector
+		var detIDs []int
+		for _, p := range plugins {
+			if p.Kind == "detector" {
+				detSetAll = append(detSetAll, p.P.(detector.Detector))
+				detIDs = append(detIDs, p.ID)
+			}
+		}
+		idOf := map[string]int{}
+		for i, d := range detSetAll {
+			idOf[d.Name()] = detIDs[i]
+		}
+		emitSet := func(label string, ds []detector.Detector) {
+			ids := []int{}
+			for _, d := range ds {
+				ids = append(ids, idOf[d.Name()])
+			}
+			cfg := &scalibr.ScanConfig{Detectors: ds}
+			var eerr error
+			pan := Safely(func() { eerr = cfg.EnableRequiredExtractors() })
+			emit(map[string]any{"fact": "enable_required_set", "set": label, "ids": ids, "ok": eerr == nil && pan == "", "err": rgErr(eerr) + pan,
+				"fs": rgNames(cfg.FilesystemExtractors), "standalone": rgNames(cfg.StandaloneExtractors)})
+		}
+		emitSet("all", append([]detector.Detector(nil), detSetAll...))
+		rev := append([]detector.Detector(nil), detSetAll...)
+		for i, j := 0, len(rev)-1; i < j; i, j = i+1, j-1 {
+			rev[i], rev[j] = rev[j], rev[i]
+		}
+		emitSet("all-reversed", rev)
+		for _, c := range caps {
+			emitSet("filtered:"+fmt.Sprint(rgCapOf(c)), dl.FromCapabilities(c))
+		}
+
 		// ---- a ScanConfig built from the filtered sets validates (before and after Scan()'s auto-enabling) ----
 		for _, c := range caps {
 			cfg := &scalibr.ScanConfig{
